@@ -254,6 +254,9 @@ def strings(tier):
     out += ['{name}', '{text}', '{0}', '{}', '{{}}', '%s', '%(name)s', '%d', '$name', '${name}', '\\1', '\\g<0>', '{name} and {text}',
             'see {name}', '{note}', '{self}']
     out += ['stk', 'tbl', 'col', 'grp', 'prj', 'it', 'k', 'ixn', 'text', 'name', 'note', 'null', 'true', 'false', 'NULL', 'None', '0', '42', '4.5', '-1', '1e5']
+    # targeted: two-character escape look-alikes (a backslash and a letter are two characters everywhere), call-shaped texts
+    out += ['\\n', '\\t', 'a\\nb', "E'\\n'", 'C:\\temp\\new', '\\r\\f', '\\u0041', '\\x41', '\\0', 'now()', 'f()', 'gen_random_uuid()', 'max(a)', 'a.b()', '()',
+            '`', 'a`b', '(', ')', 'pk', 'unique', 'not null', 'increment', "note: 'x'", 'ref: > t.id', 'default: 1', '[pk]', 'a] [b', '--', '//', '/*', '*/', '/* x */']
     # targeted: runs of quotes in multi-line texts and at the edges
     for core in ("'''", "''''", "a'''", "'''a", "a'''b", "''", "a''", "'a'"):
         out += [core + '\nx', 'x\n' + core, 'x\n' + core + '\ny']
